@@ -154,6 +154,104 @@ func init() {
 	vhook.Doc(903, "producer: idle, wait for abort")
 	vhook.Doc(904, "producer: select{abort|tick}")
 	vhook.Doc(905, "producer: send block")
+	vhook.Doc(906, "queued request (in the core loop): send result")
+	vhook.Doc(907, "requester: select{queue request|run done}")
+	vhook.Doc(908, "requester: wait for result")
+}
+
+// v10Request does what SourceControl.runLaterIfActive does with a request: hand it to the core loop, or give up
+// when the run has ended; the request itself reports its result back as the RPC closures do.
+func v10Request(queued chan func(), results chan error, runDone <-chan struct{}) string {
+	f := func() {
+		vhook.P(906)
+		results <- nil
+	}
+	vhook.PSC(907, []interface{}{queued, runDone}, []bool{true, false}, false)
+	select {
+	case queued <- f:
+		vhook.C(0)
+		vhook.P(908)
+		<-results
+		return "served"
+	case <-runDone:
+		vhook.C(1)
+		return "source-stopped"
+	}
+}
+
+// runAbaco: the real AbacoSource (Sample/StartRun/readerMainLoop/getNextBlock worker/distributeData) under
+// Start, a queued request and Stop.
+func (sc v10Scenario) runAbaco(x *vexp.X) vexp.Result {
+	src, clock := v17NewAbaco()
+	defer src.stopTickers()
+	queued := make(chan func())
+	results := make(chan error)
+	started := make(chan struct{})
+	var viol, class, reqOut string
+	var stopErr error
+	fail := func(c, f string, a ...interface{}) {
+		if viol == "" {
+			viol, class = fmt.Sprintf(f, a...), c
+		}
+	}
+	drivers := []func(){
+		func() {
+			if err := Start(src, queued, 3, 6); err != nil {
+				fail("start-error", "Start of the Abaco source returned %v", err)
+				close(started)
+				return
+			}
+			close(started)
+			if sc.nblocks > 0 {
+				<-src.done // at least one block has been processed
+			}
+			stopErr = src.Stop()
+		},
+		clock(started),
+	}
+	names := []string{"control", "clock"}
+	for i := 0; i < sc.nreq; i++ {
+		names = append(names, fmt.Sprintf("requester%d", i+1))
+		drivers = append(drivers, func() {
+			<-started
+			reqOut = v10Request(queued, results, src.RunDoneChan())
+		})
+	}
+	s := vhook.Run(x, vhook.Options{MaxSteps: 1500, Names: names, DelayBound: sc.delay}, drivers...)
+	out := s.Outcome()
+	if out.Pruned {
+		s.Release(2 * time.Second)
+		if out.PanicClass != "" {
+			return vexp.Result{Violation: sc.name + ": panic (free-running tail of a pruned execution): " + out.PanicText, Class: out.PanicClass}
+		}
+		return vexp.Result{Skip: true}
+	}
+	if out.PanicClass != "" {
+		fail(out.PanicClass, "panic: %s", out.PanicText)
+	} else if out.Deadlock {
+		fail("deadlock", "deadlock: %v", out.Blocked)
+	} else if out.Horizon {
+		fail("runaway", "no termination within %d scheduling steps", out.Steps)
+	}
+	if viol == "" {
+		if stopErr != nil {
+			fail("stop-error", "Stop returned %v", stopErr)
+		}
+		if st := src.AnySource.sourceState; st != Inactive {
+			fail("not-inactive", "all calls have returned but the source state is %v, not Inactive", st)
+		}
+	}
+	surv := s.Release(2 * time.Second)
+	if viol == "" && out.PanicClass != "" {
+		fail(out.PanicClass, "panic: %s", out.PanicText)
+	}
+	if viol == "" && len(surv) > 0 {
+		fail("goroutine-left", "all calls returned and the source is inactive, but goroutines of the run are still alive: %v", surv)
+	}
+	if viol != "" {
+		viol = fmt.Sprintf("%s: %s\nschedule: %s", sc.name, viol, s.TraceString())
+	}
+	return vexp.Result{Violation: viol, Class: class, Nontrivial: out.Preempt > 0, Outcome: fmt.Sprintf("stop=%v request=%s", stopErr == nil, reqOut)}
 }
 
 type v10Scenario struct {
@@ -165,9 +263,15 @@ type v10Scenario struct {
 	writing  bool // writing switched on (through the request queue) before the Stops
 	twoStart bool // S4: Start || Start on an inactive source
 	history  bool // S5: one thread, Start/Stop/Start histories
+	nreq     int  // S6/S7: threads that hand a request to the core loop (as runLaterIfActive does)
+	abaco    bool // S6: the real AbacoSource with a scripted packet producer
+	delay    bool // bound all deviations from the canonical schedule (delay bounding) instead of preemptions only
 }
 
 func (sc v10Scenario) run(x *vexp.X, dir string) vexp.Result {
+	if sc.abaco {
+		return sc.runAbaco(x)
+	}
 	src := v10New(sc.mode, sc.nblocks, sc.failStep)
 	if sc.writing {
 		src.writeDir = dir
@@ -263,8 +367,18 @@ func (sc v10Scenario) run(x *vexp.X, dir string) vexp.Result {
 				checkStopErr(fmt.Sprintf("stopper%d", i), stopErrs[i])
 			})
 		}
+		results := make(chan error)
+		for i := 0; i < sc.nreq; i++ {
+			names = append(names, fmt.Sprintf("requester%d", i+1))
+			drivers = append(drivers, func() {
+				<-started
+				if viol == "" { // Start succeeded
+					v10Request(queued, results, src.RunDoneChan())
+				}
+			})
+		}
 	}
-	s := vhook.Run(x, vhook.Options{MaxSteps: 400, Names: names}, drivers...)
+	s := vhook.Run(x, vhook.Options{MaxSteps: 400, Names: names, DelayBound: sc.delay}, drivers...)
 	out := s.Outcome()
 	if out.Pruned {
 		s.Release(2 * time.Second)
@@ -369,11 +483,11 @@ func TestVerifC10(t *testing.T) {
 	defer r.Finish()
 	// preemption bounds: "core" scenarios (two Stop callers, no blocks before the event; Start||Start)
 	// get the larger bound, the wider scenarios one less
-	pbCore, pbWide := 2, 1
+	pbCore, pbWide, pbDelay := 2, 1, 3
 	if r.Thorough() {
-		pbCore, pbWide = 3, 2
+		pbCore, pbWide, pbDelay = 3, 2, 5
 	}
-	r.SetBound(fmt.Sprintf("all interleavings (all select alternatives) with at most %d preemptions for the core scenarios (Start + 2 concurrent Stop callers against the real CoreLoop and a scripted producer that runs normally / sends an error block / closes its channel) and at most %d for the wider ones (Start || Start, 1-2 blocks before the event, 3 Stop callers, writing active, Start/Stop/Start histories incl. a first Start failing in Sample, PrepareRun or StartRun); each followed by a free-running restart of the same source object", pbCore, pbWide))
+	r.SetBound(fmt.Sprintf("all interleavings (all select alternatives) with at most %d preemptions for the core scenarios (Start + 2 concurrent Stop callers against the real CoreLoop and a scripted producer that runs normally / sends an error block / closes its channel) and at most %d for the wider ones (Start || Start, 1-2 blocks before the event, 3 Stop callers, writing active, a request handed to the core loop while Stop is called, Start/Stop/Start histories incl. a first Start failing in Sample, PrepareRun or StartRun), each followed by a restart of the same source object; and the real AbacoSource (scripted packet producer, clock thread) under Start, a queued request and Stop; the request and Abaco scenarios are delay-bounded: at most %d deviations of any kind (thread choice or select alternative) from the canonical schedule", pbCore, pbWide, pbDelay))
 	dir := filepath.Join(os.Getenv("TMPDIR"), "c10")
 	os.MkdirAll(dir, 0755)
 	var scs []v10Scenario
@@ -395,11 +509,23 @@ func TestVerifC10(t *testing.T) {
 			scs = append(scs, v10Scenario{name: fmt.Sprintf("S5-history/fail=%s/%s", f, mode), mode: mode, nblocks: 1, failStep: f, history: true})
 		}
 	}
+	for _, mode := range []string{"normal", "errblock", "close"} {
+		scs = append(scs, v10Scenario{name: "S7-" + mode + "/request", mode: mode, nblocks: 1, nstop: 1, nreq: 1, delay: true})
+	}
+	scs = append(scs, v10Scenario{name: "S6-abaco/request/stop-after-block", abaco: true, nblocks: 1, nreq: 1, delay: true})
+	scs = append(scs, v10Scenario{name: "S6-abaco/request/stop-at-once", abaco: true, nblocks: 0, nreq: 1, delay: true})
+	scs = append(scs, v10Scenario{name: "S6-abaco/no-request", abaco: true, nblocks: 1, nreq: 0, delay: true})
+	if r.Thorough() {
+		scs = append(scs, v10Scenario{name: "S6-abaco/two-requests", abaco: true, nblocks: 1, nreq: 2, delay: true})
+	}
 	for _, sc := range scs {
 		sc := sc
 		bound := pbWide
 		if sc.nstop == 1 && sc.nblocks == 0 && !sc.writing && !sc.history && !sc.twoStart {
 			bound = pbCore
+		}
+		if sc.delay {
+			bound = pbDelay
 		}
 		r.DFSSharded(sc.name, bound, 4, func(x *vexp.X) vexp.Result { return sc.run(x, dir) })
 	}
